@@ -1,0 +1,106 @@
+//go:build verif
+// +build verif
+
+package scipipe
+
+// Verification hooks (build tag `verif`). With the tag off, verif_nohooks.go
+// provides empty functions with the same names, so the library behaves exactly
+// as without this file.
+//
+// Environment:
+//   VERIF_TRACE=<file>      append one line per hook call: seq \t point \t gid \t args...
+//   VERIF_CRASH_AT=<pt>#<n> SIGKILL the own process group at the n-th call (1-based) of point <pt>
+//   VERIF_DELAY=<pt>:<ms>[,<pt>:<ms>...]  sleep at a point (widens race windows for searches)
+
+import (
+	"bytes"
+	"fmt"
+	"os"
+	"runtime"
+	"strconv"
+	"strings"
+	"sync"
+	"syscall"
+	"time"
+)
+
+var (
+	vhMu      sync.Mutex
+	vhInit    bool
+	vhTrace   *os.File
+	vhSeq     int
+	vhCounts  = map[string]int{}
+	vhCrashPt string
+	vhCrashN  int
+	vhDelays  = map[string]time.Duration{}
+)
+
+func vhSetup() {
+	vhInit = true
+	if f := os.Getenv("VERIF_TRACE"); f != "" {
+		fh, err := os.OpenFile(f, os.O_APPEND|os.O_CREATE|os.O_WRONLY, 0644)
+		if err == nil {
+			vhTrace = fh
+		}
+	}
+	if c := os.Getenv("VERIF_CRASH_AT"); c != "" {
+		bits := strings.SplitN(c, "#", 2)
+		vhCrashPt = bits[0]
+		vhCrashN = 1
+		if len(bits) == 2 {
+			if n, err := strconv.Atoi(bits[1]); err == nil {
+				vhCrashN = n
+			}
+		}
+	}
+	if d := os.Getenv("VERIF_DELAY"); d != "" {
+		for _, kv := range strings.Split(d, ",") {
+			bits := strings.SplitN(kv, ":", 2)
+			if len(bits) == 2 {
+				if ms, err := strconv.Atoi(bits[1]); err == nil {
+					vhDelays[bits[0]] = time.Duration(ms) * time.Millisecond
+				}
+			}
+		}
+	}
+}
+
+func vhGid() string {
+	b := make([]byte, 64)
+	b = b[:runtime.Stack(b, false)]
+	b = bytes.TrimPrefix(b, []byte("goroutine "))
+	if i := bytes.IndexByte(b, ' '); i >= 0 {
+		return string(b[:i])
+	}
+	return "?"
+}
+
+func vhook(point string, args ...string) {
+	vhMu.Lock()
+	if !vhInit {
+		vhSetup()
+	}
+	vhSeq++
+	vhCounts[point]++
+	n := vhCounts[point]
+	if vhTrace != nil {
+		fmt.Fprintf(vhTrace, "%d\t%s\t%s\t%s\n", vhSeq, point, vhGid(), strings.Join(args, "\t"))
+	}
+	crash := vhCrashPt == point && vhCrashN == n
+	delay := vhDelays[point]
+	vhMu.Unlock()
+	if crash {
+		if vhTrace != nil {
+			vhTrace.Sync()
+		}
+		syscall.Kill(0, syscall.SIGKILL) // whole process group, like a killed batch job
+		select {}
+	}
+	if delay > 0 {
+		time.Sleep(delay)
+	}
+}
+
+func vhookTask(point string, t *Task) {
+	vhook(point, t.Name, t.TempDir())
+}
